@@ -233,6 +233,82 @@ theorem rejected_changes_nothing {env : Env} {s : State} (h : Reachable env s) (
     (hrej : (serve env r s).2.rejected = true) : (serve env r s).1 = s :=
   serve_rejected (reachable_inv h) hrej
 
+/-! ### /load and /adapt (caddyconfig/load.go) write and read the same document -/
+
+/-- `pathParts "/config"` -/
+theorem parts_cfg : pathParts (slash :: cfgKey) = ([cfgKey], false) := by decide
+
+/-- `POST /config <doc>` on `rawCfg`: the document is replaced — unless the current one is an
+    array, to which POST appends -/
+theorem access_post_cfg {root j : Json} (hr : RootShape root) (hna : ∀ xs, cfgOf root ≠ .arr xs) :
+    access .post (slash :: cfgKey) (.val j) root = (.obj [(cfgKey, j)], .ok none) := by
+  have ht : trimSlash (slash :: cfgKey) ≠ [] := by decide
+  unfold access
+  simp only [ht, if_false, parts_cfg, bodyVal]
+  rcases hr with h | ⟨d, h⟩ <;> subst h
+  · simp [trav_obj_last, lookup, lastOp, setKey, insertSorted]
+  · rw [trav_obj_last]
+    have hd : ∀ xs, d ≠ .arr xs := by
+      intro xs hx; exact hna xs (by simp [cfgOf, lookup, encodeOf, hx])
+    cases d <;> simp_all [lookup, lastOp, setKey, replaceKey]
+
+/-- **/load is an unconditional `POST /config`.** For a JSON body (no Content-Type, or one
+    that ends in "/json") the endpoint is exactly
+    `changeConfig(POST, "/config", body, "", forceReload)`: same lock, same mutation, same
+    unchanged test, index, run and rollback as a request to /config/ — so every theorem about
+    `change` (atomicity, rejected-changes-nothing, the state invariant) covers it; no
+    Content-Type requirement and **no If-Match**: the header is not looked at. -/
+theorem load_is_unconditional_post_config (env : Env) (r : Req) (s : State) (hp : r.path = loadPath)
+    (hm : r.method = .post) (hct : r.ct = .none ∨ r.ct = .json ∨ r.ct = .jsonParams) :
+    serve env r s = ((change env .post (slash :: cfgKey) r.body [] r.force s).1,
+                     loadResp (change env .post (slash :: cfgKey) r.body [] r.force s).2) := by
+  have hr : route loadPath = .load := by decide
+  unfold serve
+  rw [hp, hr]
+  simp only [handleLoad, hm]
+  rcases hct with h | h | h <;> simp [h, adaptByContentType]
+
+/-- **/load replaces the entire configuration.** An accepted /load (JSON or adapted body `j`)
+    leaves exactly `j` as the document GET reads from — whatever was there before (the
+    hypothesis excludes only a current document that is an array, which no run step accepts). -/
+theorem load_replaces_document {env : Env} {s : State} (h : Reachable env s) (r : Req) (j : Json)
+    (hp : r.path = loadPath) (hm : r.method = .post)
+    (hb : adaptByContentType env r.ct r.body = .body (.val j))
+    (hna : ∀ xs, cfgOf s.rawCfg ≠ .arr xs) (hok : (serve env r s).2 = .okWrite) :
+    cfgOf (serve env r s).1.rawCfg = j := by
+  have hi := reachable_inv h
+  have hr : route loadPath = .load := by decide
+  unfold serve at hok ⊢
+  rw [hp, hr] at hok ⊢
+  simp only [handleLoad, hm, hb] at hok ⊢
+  have hne : ¬ (HMethod.post ≠ HMethod.post) := by simp
+  simp only [hne, if_false] at hok ⊢
+  have hacc : (change env .post (slash :: cfgKey) (.val j) [] r.force s).2 = .ok ∨
+      (change env .post (slash :: cfgKey) (.val j) [] r.force s).2 = .same := by
+    generalize (change env .post (slash :: cfgKey) (.val j) [] r.force s).2 = c at hok
+    cases c <;> simp_all [loadResp, changeResp]
+  have hch : change env .post (slash :: cfgKey) (.val j) [] r.force s =
+      mutate env .post (slash :: cfgKey) (.val j) r.force s := by simp [change]
+  rw [hch] at hacc ⊢
+  obtain ⟨hroot, _⟩ := mutate_accepted hacc
+  rw [hroot, access_post_cfg hi.shape hna]
+  simp [cfgOf, lookup, encodeOf]
+
+/-- the If-Match header plays no part in /load -/
+theorem load_ignores_if_match (env : Env) (r : Req) (s : State) (hp : r.path = loadPath) (x : Bytes) :
+    serve env { r with ifMatch := x } s = serve env r s := by
+  have hr : route loadPath = .load := by decide
+  unfold serve
+  simp only [hp, hr, handleLoad]
+
+/-- **/adapt is a pure function of the request**: whatever it answers, the state is untouched -/
+theorem adapt_changes_nothing (env : Env) (r : Req) (s : State) (hp : r.path = adaptPath) :
+    (serve env r s).1 = s := by
+  have hr : route adaptPath = .adapt := by decide
+  unfold serve
+  rw [hp, hr]
+  exact handleAdapt_pure env r s
+
 /-! ### an object tagged with @id is reachable under /id/ as that same object -/
 
 /-- the tagged object at position `segs` of the loaded document `j`, indexed under `t`, can
@@ -388,8 +464,8 @@ def pC12 : Bytes := [47, 99, 111, 110, 102, 105, 103, 47, 97, 112, 112, 115, 47,
 
 /-- `{"apps":{"c12":{"@id":"x","a":[1]}}}` -/
 def exDoc : Json := .obj [(kApps, .obj [(kC12, .obj [(idKey, .str kX), (kA, .arr [.num [49]])])])]
-def exEnv : Env := ⟨fun _ => [], fun _ => true⟩
-def exReq (m : HMethod) (p : Bytes) (b : Body) : Req := ⟨m, p, b, [], false, true⟩
+def exEnv : Env := ⟨fun _ => [], fun _ => true, fun _ => none⟩
+def exReq (m : HMethod) (p : Bytes) (b : Body) : Req := ⟨m, p, b, [], false, .json⟩
 def exLoaded : State := (serve exEnv (exReq .post pRoot (.val exDoc)) initState).1
 
 example : Reachable exEnv exLoaded := .step _ .init
@@ -425,7 +501,7 @@ example : apart [cfgKey, kApps, kC12, idKey] (partsOf pA0).dropLast exLoaded.raw
 def hashEx : Option Json → Bytes
   | some (.num t) => 104 :: t
   | _ => [104]
-def casEnv : Env := ⟨hashEx, fun _ => true⟩
+def casEnv : Env := ⟨hashEx, fun _ => true, fun _ => none⟩
 def pN : Bytes := [47, 99, 111, 110, 102, 105, 103, 47, 97, 112, 112, 115, 47, 99, 49, 50, 47, 110]     -- "/config/apps/c12/n"
 /-- `{"apps":{"c12":{"n":1}}}` loaded -/
 def casLoaded : State :=
@@ -483,5 +559,34 @@ example : Addressable exDoc [kApps, kC12] kX where
 -- … and GET /id/x returns it
 example : (serve exEnv (readReq (idPrefix ++ kX)) exLoaded).2 =
     .okGet (some (.obj [(idKey, .str kX), (kA, .arr [.num [49]])])) pC12 := by decide
+
+-- /load and /adapt
+def wrapEx : Body → Option Json
+  | .val j => some (.obj [(kApps, .obj [(kC12, j)])])
+  | _ => none
+def loadEnv : Env := ⟨fun _ => [], fun _ => true, wrapEx⟩
+def loadReq (m : HMethod) (p : Bytes) (b : Body) (ct : CT) : Req := ⟨m, p, b, [34], false, ct⟩   -- carries a malformed If-Match
+-- a JSON /load on the loaded example state is accepted although its If-Match header is garbage,
+example : (serve loadEnv (loadReq .post loadPath (.val .null) .json) exLoaded).2 = .okWrite := by decide
+example : cfgOf (serve loadEnv (loadReq .post loadPath (.val .null) .json) exLoaded).1.rawCfg = .null := by decide
+-- the same request to /config/ is refused (400, malformed If-Match)
+example : (serve loadEnv (loadReq .post pRoot (.val .null) .json) exLoaded).2 = .fail .ifMatchQuote := by decide
+-- load_replaces_document with an adapted body: hypotheses and conclusion on a concrete request
+example : adaptByContentType loadEnv .adapter (.val (.num [49])) = .body (.val (.obj [(kApps, .obj [(kC12, .num [49])])])) := by decide
+example : ∀ xs, cfgOf exLoaded.rawCfg ≠ .arr xs := by
+  have : cfgOf exLoaded.rawCfg = exDoc := by decide
+  intro xs; rw [this]; simp [exDoc]
+example : (serve loadEnv (loadReq .post loadPath (.val (.num [49])) .adapter) exLoaded).2 = .okWrite := by decide
+-- Content-Type dispatch: unknown adapter, no slash, unparsable, GET
+example : (serve loadEnv (loadReq .post loadPath (.val .null) .plain) exLoaded).2 = .fail .adapterUnknown := by decide
+example : (serve loadEnv (loadReq .post loadPath (.val .null) .jsonx) exLoaded).2 = .fail .adapterUnknown := by decide
+example : (serve loadEnv (loadReq .post loadPath (.val .null) .noSlash) exLoaded).2 = .fail .ctMalformed := by decide
+example : (serve loadEnv (loadReq .get loadPath .empty .none) exLoaded).2 = .fail .method := by decide
+-- a rejected /load answers 400 "loading config: …" and changes nothing
+example : (serve loadEnv (loadReq .post loadPath (.val (.obj [(idKey, .bool true)])) .none) exLoaded)
+    = (exLoaded, .fail (.viaLoad .index)) := by decide
+-- /adapt
+example : (serve loadEnv (loadReq .post adaptPath (.val (.num [49])) .adapter) exLoaded)
+    = (exLoaded, .okAdapt (.obj [(kApps, .obj [(kC12, .num [49])])])) := by decide
 
 end CaddyModel.C12
